@@ -380,10 +380,14 @@ func (x *Exec) selectStmt(st *State, fr *Frame, in *ssa.Select, next func(*State
 		x.setVal(s, fr, in, &Val{T: in.Type(), K: KTuple, Fs: fs})
 		next(s)
 	}
+	var chans []*Val
+	for _, ci := range cases {
+		chans = append(chans, ci.ch)
+	}
 	if in.Blocking {
-		x.atomicEvent(st, "select blocking", nil, nil)
+		x.atomicEvent(st, "select blocking", chans, nil)
 	} else {
-		x.atomicEvent(st, "select nonblocking", nil, nil)
+		x.atomicEvent(st, "select nonblocking", chans, nil)
 	}
 	n := len(cases)
 	if !in.Blocking {
